@@ -29,7 +29,7 @@ fn known_decode(rd: &RefDec) -> Option<&'static str> {
 
 /// The known class (if any) in which `process_packet` panics on this input in
 /// the state described by `r`.
-fn known_process(r: &RefEndpoint, rd: &RefDec, p: &[u8]) -> Option<&'static str> {
+pub fn known_process(r: &RefEndpoint, rd: &RefDec, p: &[u8]) -> Option<&'static str> {
     if let Some(id) = known_decode(rd) {
         return Some(id);
     }
@@ -54,7 +54,12 @@ fn reachable_states(run: &mut Run) -> Vec<Vec<Event>> {
 // ---------------------------------------------------------------------------
 
 fn c09_specs() -> Vec<CtxSpec> {
-    vec![CtxSpec::fresh(Cfg::simple(0x23)), dirty_spec(0x51)]
+    vec![
+        CtxSpec::fresh(Cfg::simple(0x23)),
+        dirty_spec(0x51),
+        // forced collisions: own address == the shapes' destination, assigned EID == their source
+        CtxSpec { cfg: Cfg::bare(DST), history: vec![Event::Process(set_eid_req(0x7E, DST, 1, SRC))] },
+    ]
 }
 
 struct J {
@@ -170,6 +175,89 @@ pub fn run_c09(run: &mut Run) {
             1
         })
     });
+    // the four SMBus header bytes, which the property says do not matter: every triple of them
+    // x all 2^24 values (thorough: all 2^32 values of the four) on three shapes, PEC re-computed
+    {
+        let bases: Vec<Vec<u8>> = vec![
+            forge_request(SRC, DST, 0, false, 0x04, &[0xFF]),
+            forge_response(SRC, DST, 0, 0x01, 0, &[0x00, 0x31, 0x00]),
+            raw_frame(SRC, DST, T_PCI, &[0x14, 0x14, 1, 2, 3]),
+        ];
+        const TRIPLES: [[usize; 3]; 4] = [[0, 1, 2], [0, 1, 3], [0, 2, 3], [1, 2, 3]];
+        let per: u64 = if thorough { 1u64 << 32 } else { 4 * (1u64 << 24) };
+        let name = if thorough { "SMBus header: all 2^32 values of bytes 0..=3 x 3 shapes, PEC re-computed" } else { "SMBus header: every triple of bytes 0..=3 x 2^24 values x 3 shapes, PEC re-computed" };
+        let cfg = Cfg::simple(0x23);
+        run.sweep_chunked(name, per * bases.len() as u64, |acc, lo, hi| {
+            let owned = Owned::new(&cfg);
+            let mut buf: Vec<u8> = Vec::with_capacity(32);
+            for i in lo..hi {
+                let b = &bases[(i / per) as usize];
+                let r = i % per;
+                buf.clear();
+                buf.extend_from_slice(b);
+                if thorough {
+                    buf[..4].copy_from_slice(&(r as u32).to_be_bytes());
+                } else {
+                    let t = TRIPLES[(r >> 24) as usize];
+                    buf[t[0]] = (r >> 16) as u8;
+                    buf[t[1]] = (r >> 8) as u8;
+                    buf[t[2]] = r as u8;
+                }
+                fix_pec(&mut buf);
+                let ctxs = [owned.ctx()];
+                acc.evals += 1;
+                let j = judge_c09(&ctxs, &buf, false);
+                acc.trans += 1;
+                acc.validated += 1;
+                for (k, d) in j.viols {
+                    acc.violation(3, k, d, || c09_case(&buf, None));
+                }
+            }
+            acc.outcome2("smbus-header", "visited");
+        });
+    }
+    // histories of fragment-flagged traffic: every sequence of length <= 4 over vendor/SPDM packets
+    // with 6 SOM/EOM/sequence-number combinations; the decode outcome must not depend on the history
+    {
+        let mut alpha: Vec<Vec<u8>> = vec![];
+        for t in [T_PCI, T_SPDM] {
+            for flags in [0xC8u8, 0x88, 0x08, 0x18, 0x48, 0x58] {
+                let mut p = raw_frame(SRC, DST, t, &[0x14, 0x14, 0xA0, 0xA1, flags]);
+                p[7] = flags;
+                fix_pec(&mut p);
+                alpha.push(p);
+            }
+        }
+        let a = alpha.len() as u64;
+        let total: u64 = (1..=4u32).map(|d| a.pow(d)).sum();
+        let cfg = Cfg::simple(DST);
+        run.sweep_chunked("every sequence of length <= 4 over 12 vendor/SPDM packets (6 SOM/EOM/seq combinations x 2 types), decoded: outcome vs a fresh context", total, |acc, lo, hi| {
+            let owned = Owned::new(&cfg);
+            for i in lo..hi {
+                let mut r = i;
+                let mut len = 1u32;
+                while r >= a.pow(len) {
+                    r -= a.pow(len);
+                    len += 1;
+                }
+                let mut hist = vec![];
+                for _ in 0..len {
+                    hist.push(Event::Decode(alpha[(r % a) as usize].clone()));
+                    r /= a;
+                }
+                let Some(Event::Decode(last)) = hist.pop() else { continue };
+                let ctxs = vec![owned.ctx(), build(&owned, &hist)];
+                acc.evals += 1;
+                let j = judge_c09(&ctxs, &last, false);
+                acc.trans += 2 + hist.len() as u64;
+                acc.validated += 1;
+                acc.nontrivial(Fnv::default().u64(0x9F).u64(i).finish());
+                for (kind, d) in j.viols {
+                    acc.violation(len as u64, kind, d, || c09_case(&last, Some(&hist)));
+                }
+            }
+        });
+    }
     // a stride of the t=1 space on every reachable state of the C13 machine
     let reps = reachable_states(run);
     let stride = 61u64;
@@ -426,6 +514,48 @@ pub fn run_c10(run: &mut Run) {
             c10_one(acc, &spec, &owned, &buf, true, 2, k);
         }
     });
+    // histories of non-control traffic with every SOM/EOM flag combination and large payloads
+    // (reassembly-style bookkeeping must not overflow): every sequence of length <= 4
+    {
+        let mut alpha: Vec<Vec<u8>> = vec![];
+        for t in [T_PCI, T_SPDM] {
+            for flags in [0xC8u8, 0x88, 0x08, 0x48] {
+                for len in [100usize, 200] {
+                    let mut p = raw_frame(SRC, DST, t, &vec![0x5Au8; len]);
+                    p[7] = flags;
+                    fix_pec(&mut p);
+                    alpha.push(p);
+                }
+            }
+        }
+        let a = alpha.len() as u64;
+        let total: u64 = (1..=4u32).map(|d| a.pow(d)).sum();
+        run.sweep_chunked("every sequence of length <= 4 over 16 vendor/SPDM packets (4 SOM/EOM flag combinations x 2 sizes x 2 types)", total, |acc, lo, hi| {
+            let cfg = Cfg::simple(DST);
+            let owned = Owned::new(&cfg);
+            for i in lo..hi {
+                let mut r = i;
+                let mut len = 1u32;
+                while r >= a.pow(len) {
+                    r -= a.pow(len);
+                    len += 1;
+                }
+                let mut hist = vec![];
+                for k in 0..len {
+                    let p = alpha[(r % a) as usize].clone();
+                    r /= a;
+                    // alternate decode-only and process deliveries in the history
+                    hist.push(if k % 2 == 0 { Event::Decode(p) } else { Event::Process(p) });
+                }
+                let last = match hist.pop().unwrap() {
+                    Event::Decode(p) | Event::Process(p) => p,
+                    _ => unreachable!(),
+                };
+                let spec = CtxSpec { cfg: cfg.clone(), history: hist };
+                c10_one(acc, &spec, &owned, &last, true, len as u64, i);
+            }
+        });
+    }
     // every reachable state of the C13 machine: axes 0-3 and the truncation space
     let reps = reachable_states(run);
     let cfg = Cfg::simple(DST);
@@ -696,6 +826,35 @@ fn c02_specs() -> Vec<CtxSpec> {
 /// Full check of one wrong-PEC input on one context: decode-only and process,
 /// each followed by the probe battery, in lock-step with the reference.
 fn judge_c02(spec: &CtxSpec, owned: &Owned, bytes: &[u8]) -> (Vec<String>, u64, String) {
+    judge_c02_after(spec, owned, bytes, None)
+}
+
+/// `orig`: the valid packet the input was derived from.  When given, the input is
+/// also delivered to a context that has just probed and processed that valid
+/// packet (a corrupted retransmission: same header prefix, same length, same
+/// receive buffer).
+fn judge_c02_after(spec: &CtxSpec, owned: &Owned, bytes: &[u8], orig: Option<&[u8]>) -> (Vec<String>, u64, String) {
+    let (mut v, mut calls, mut observed) = judge_c02_in(spec, owned, bytes);
+    if let Some(o) = orig {
+        if o.len() >= 3 {
+            let mut s2 = spec.clone();
+            s2.history.push(Event::GetLength(o[..3].to_vec()));
+            let rd = ref_decode(o);
+            if known_process(&build_ref(spec), &rd, o).is_none() {
+                s2.history.push(Event::Process(o.to_vec()));
+            }
+            let (v2, c2, o2) = judge_c02_in(&s2, owned, bytes);
+            calls += c2;
+            observed.push_str(&o2);
+            for d in v2 {
+                v.push(format!("after probing and processing the valid packet {}: {}", hex(o), d));
+            }
+        }
+    }
+    (v, calls, observed)
+}
+
+fn judge_c02_in(spec: &CtxSpec, owned: &Owned, bytes: &[u8]) -> (Vec<String>, u64, String) {
     let mut v = vec![];
     let mut calls = 0;
     let mut observed = String::new();
@@ -806,7 +965,7 @@ pub fn run_c02(run: &mut Run) {
                 acc.violation(0, "machinery", format!("reference CRC does not detect burst {:#04x}@{} on {}", pattern, start, hex(&corpus[pi])), || json!({"prop": "C02", "check": "none"}));
                 continue;
             }
-            let (v, calls, _) = judge_c02(&specs[si], &owned[si], &p);
+            let (v, calls, _) = judge_c02_after(&specs[si], &owned[si], &p, Some(&corpus[pi]));
             acc.trans += calls;
             acc.validated += 1;
             acc.nontrivial(crate::engine::fp_bytes(2, &p));
@@ -818,7 +977,7 @@ pub fn run_c02(run: &mut Run) {
                 acc.sample(|| json!({"valid": hex(&corpus[pi]), "burst_pattern": pattern, "start_bit": start, "corrupted": hex(&p)}));
             }
             for d in v {
-                acc.violation(pattern.count_ones() as u64, "burst", format!("burst {:#04x} at bit {} of {}: {}", pattern, start, hex(&corpus[pi]), d), || json!({"prop": "C02", "check": "input", "spec": specs[si], "input": hex(&p)}));
+                acc.violation(pattern.count_ones() as u64, "burst", format!("burst {:#04x} at bit {} of {}: {}", pattern, start, hex(&corpus[pi]), d), || json!({"prop": "C02", "check": "input", "spec": specs[si], "input": hex(&p), "orig": hex(&corpus[pi])}));
             }
         }
     });
@@ -870,12 +1029,13 @@ pub fn run_c02(run: &mut Run) {
                 acc.skipped_known += 1;
                 continue;
             }
-            let (v, calls, _) = judge_c02(&specs[si], &owned[si], &buf);
+            let orig = t1c.base_of(k / 2).to_vec();
+            let (v, calls, _) = judge_c02_after(&specs[si], &owned[si], &buf, Some(&orig));
             acc.trans += calls;
             acc.validated += 1;
             acc.outcome2("t1-core", if v.is_empty() { "rejected-state-unchanged" } else { "violation" });
             for d in v {
-                acc.violation(w, "wrong-pec", d, || json!({"prop": "C02", "check": "input", "spec": specs[si], "input": hex(&buf)}));
+                acc.violation(w, "wrong-pec", d, || json!({"prop": "C02", "check": "input", "spec": specs[si], "input": hex(&buf), "orig": hex(&orig)}));
             }
         }
     });
@@ -940,7 +1100,8 @@ pub fn replay_c02(case: &Value) -> Result<ReplayOut, String> {
             let spec: CtxSpec = get_de(case, "spec")?;
             let bytes = get_hex(case, "input")?;
             let owned = Owned::new(&spec.cfg);
-            let (mut v, _, observed) = judge_c02(&spec, &owned, &bytes);
+            let orig = if case["orig"].is_string() { Some(get_hex(case, "orig")?) } else { None };
+            let (mut v, _, observed) = judge_c02_after(&spec, &owned, &bytes, orig.as_deref());
             let (v2, _) = judge_c02_cheap(&spec, &owned, &bytes);
             for d in v2 {
                 if !v.contains(&d) {
